@@ -45,6 +45,8 @@ func rprop_dense_with_gradient(evalGradient DenseGradientF, x0 DenseFloat64Vecto
   // gradients
   gradient_new := NullDenseFloat64Vector(n)
   gradient_old := NullDenseFloat64Vector(n)
+  // gradient at the trial position
+  gradient_tmp := NullDenseFloat64Vector(n)
   // initialize values
   for i := 0; i < x1.Dim(); i++ {
     step[i]         = step_init
@@ -93,11 +95,13 @@ func rprop_dense_with_gradient(evalGradient DenseGradientF, x0 DenseFloat64Vecto
         // the step sizes have been reduced until x does not change any more
         return x1, fmt.Errorf("step size underflow: no valid step found")
       }
-      // compute partial derivatives and update x
-      if err := evalGradient(x2, gradient_new); err != nil {
+      // compute partial derivatives at the trial position (gradient_new
+      // must keep the gradient at x1, it determines the search direction
+      // when the trial position is rejected)
+      if err := evalGradient(x2, gradient_tmp); err != nil {
         return x1, err
       }
-      if gradient_is_nan(gradient_new) ||
+      if gradient_is_nan(gradient_tmp) ||
         (constraints.Value != nil && !constraints.Value(x2)) {
         // if the updated is invalid reduce step size
         for i := 0; i < x1.Dim(); i++ {
@@ -112,6 +116,7 @@ func rprop_dense_with_gradient(evalGradient DenseGradientF, x0 DenseFloat64Vecto
     }
     // accept the new position
     copy(x1, x2)
+    copy(gradient_new, gradient_tmp)
     // evaluate stop criterion
     if (Norm(gradient_new) < epsilon.Value) {
       break;
